@@ -446,8 +446,8 @@ impl Property for DocQueries {
 
 //////////////////////////////////////////// serialize part ////////////////////////////////////////
 
-/// construct → bytes → parse, parse again from a copy at another address/alignment, construct
-/// again: all the same answers (= the naive scan) and the same bytes.
+/// construct → bytes → parse; construct again → parse from a copy at another address/alignment:
+/// both give the answers of the naive scan.  Whether the two byte strings are identical is a label.
 pub struct DocSerialize;
 
 impl Property for DocSerialize {
@@ -484,18 +484,15 @@ impl Property for DocSerialize {
                 return o;
             }
         };
-        if buf1 != buf2 {
-            o.fail(
-                "compressed:construct-nondeterministic",
-                format!("constructing the same document twice gave different bytes ({} vs {} bytes); {}", buf1.len(), buf2.len(), show_case(c)),
-            );
-            return o;
-        }
-        // a copy at a different address and alignment
+        // Byte identity of two constructions is not part of the property (a tie broken by hash-map
+        // iteration order would give different, equally valid bytes): recorded, not required.  Every
+        // query oracle runs on both constructions below.
+        o.label(if buf1 == buf2 { "construct:byte-identical" } else { "construct:bytes-differ-between-two-constructions" });
+        // the second construction is parsed from a copy at a different address and alignment
         let shift = 1 + sel(c.probes.first().copied().unwrap_or(0), 7);
         let mut moved = vec![0xa5u8; shift];
-        moved.extend_from_slice(&buf1);
-        for (tag, bytes) in [("compressed-parse-1", &buf1[..]), ("compressed-parse-2", &moved[shift..])] {
+        moved.extend_from_slice(&buf2);
+        for (tag, bytes) in [("compressed-construction-1", &buf1[..]), ("compressed-construction-2-moved", &moved[shift..])] {
             match CompressedDocument::unpack(bytes) {
                 Ok((d, rest)) => {
                     if !rest.is_empty() {
